@@ -13,6 +13,7 @@ import (
 )
 
 type Clause struct {
+	Each  bool // checked separately at every return statement (smaller queries), same meaning as ensures
 	Local bool // proved at exit but not assumed at call sites ("guarantee")
 	Label string
 	Src   string
@@ -99,7 +100,7 @@ type Contracts struct {
 }
 
 var clauseKW = map[string]bool{"prop": true, "requires": true, "ensures": true, "assigns": true, "loop": true,
-	"decreases": true, "ghost": true, "ghost_final": true, "use": true, "reveal": true, "guarantee": true, "define": true, "callpre": true, "panics_if": true, "trusted": true, "noinline": true, "pure": true, "allocates": true}
+	"decreases": true, "ghost": true, "ghost_final": true, "use": true, "reveal": true, "guarantee": true, "define": true, "callpre": true, "ensures_each": true, "panics_if": true, "trusted": true, "noinline": true, "pure": true, "allocates": true}
 
 var headRe = regexp.MustCompile(`^func\s*(\(\s*(\w+)\s+(\*?[\w.]+)\s*\))?\s*([\w$.@]+)\s*\((.*?)\)\s*(\(.*\)|[\w.*\[\]]+)?\s*$`)
 
@@ -241,9 +242,9 @@ func loadContracts(files []string, pkgNames []string) (*Contracts, error) {
 				switch word {
 				case "prop":
 					cur.Props = append(cur.Props, strings.Fields(rest)...)
-				case "requires", "ensures", "panics_if", "decreases", "guarantee":
+				case "requires", "ensures", "panics_if", "decreases", "guarantee", "ensures_each":
 					cl := &Clause{Src: rest, Line: ln + 1, File: file}
-					if m := regexp.MustCompile(`^(\w+):\s+(.*)$`).FindStringSubmatch(rest); m != nil && (word == "ensures" || word == "guarantee") {
+					if m := regexp.MustCompile(`^(\w+):\s+(.*)$`).FindStringSubmatch(rest); m != nil && (word == "ensures" || word == "guarantee" || word == "ensures_each") {
 						cl.Label, cl.Src = m[1], m[2]
 					}
 					switch word {
@@ -251,6 +252,9 @@ func loadContracts(files []string, pkgNames []string) (*Contracts, error) {
 						cur.Requires = append(cur.Requires, cl)
 					case "guarantee":
 						cl.Local = true
+						cur.Ensures = append(cur.Ensures, cl)
+					case "ensures_each":
+						cl.Each = true
 						cur.Ensures = append(cur.Ensures, cl)
 					case "ensures":
 						cur.Ensures = append(cur.Ensures, cl)
